@@ -8,3 +8,8 @@ open Lungo.C03
 #print axioms commit_atomic
 #print axioms visibility
 #print axioms commit_atomic_store
+#print axioms visibility_run
+#print axioms commit_publishes
+#print axioms run_append
+#print axioms all_or_nothing
+#print axioms nothing_without_commit
